@@ -147,7 +147,7 @@ template <int D, class Filter> static void one_cn(vh::Trace& tr, const A3& k, in
   if (!isolated && D == 3 && k.size() > 0 && k.lo[0] == 0 && k.n[0] == 1 && !(k.lo[1] <= 0 && 0 < k.lo[1] + k.n[1])) {
     tr.flush();
     const pid_t pid = fork();
-    if (pid == 0) { install_signal_handlers(false); one_cn<D, Filter>(tr, k, sk, d, sd, olo, on, inplace, true); tr.flush(); _exit(0); }
+    if (pid == 0) { install_signal_handlers(false); std::set_terminate([] { std::abort(); }); one_cn<D, Filter>(tr, k, sk, d, sd, olo, on, inplace, true); tr.flush(); _exit(0); }
     int status = 0;
     waitpid(pid, &status, 0);
     if (!(WIFEXITED(status) && WEXITSTATUS(status) == 0)) {
@@ -175,9 +175,35 @@ template <int D, class Filter> static void one_cn(vh::Trace& tr, const A3& k, in
 }
 
 struct K1 { int lo; std::vector<long long> v; int bc; };
-static void one_sep(vh::Trace& tr, const K1* ks, int sk, const A3& d, int sd, int via) {
+static void emit_sep_head(vh::Json& j, const K1* ks, int sk, const A3& d, int sd, int via) {
+  std::vector<std::vector<long long>> kv = { ks[0].v, ks[1].v, ks[2].v };
+  std::vector<int> klo = { ks[0].lo, ks[1].lo, ks[2].lo };
+  j.num("via", via).arr("klo", klo).arr2("kv", kv).raw("bc", std::string("[\"") + BCN[ks[0].bc] + "\",\"" + BCN[ks[1].bc] + "\",\"" + BCN[ks[2].bc] + "\"]")
+      .num("sk", sk).arr("dlo", v3(d.lo)).arr("dn", v3(d.n)).arr("d", d.v).num("sd", sd);
+}
+static void one_sep(vh::Trace& tr, const K1* ks, int sk, const A3& d, int sd, int via, bool isolated = false) {
   // via 0: SeparableArrayFunctionObject in place, 1: same, 2-argument call, 2: SeparableConvolutionImageFilter (coefficients
-  // through the setter) apply(image), 3: same, apply(out, in), 4: SeparableConvolutionImageFilter(coefficients) constructor
+  // through the setter) apply(image), 3: same, apply(out, in), 4: SeparableConvolutionImageFilter(coefficients) constructor,
+  // 5: that constructor, then parameter_info() parsed by a second filter which is the one applied.
+  // The constructor once wrote outside a std::vector for kernels reaching further right than left (fixed by 532e517b9):
+  // such instances run in a child process so that a corrupted heap cannot take the recording down; a child that dies is
+  // recorded with "crash":true (which no specification accepts).
+  bool right_heavy = false;
+  for (int a = 0; a < 3; ++a) if (!ks[a].v.empty() && ks[a].lo + (int)ks[a].v.size() - 1 > -ks[a].lo) right_heavy = true;
+  if (!isolated && via >= 4 && right_heavy) {
+    tr.flush();
+    const pid_t pid = fork();
+    if (pid == 0) { install_signal_handlers(false); std::set_terminate([] { std::abort(); }); one_sep(tr, ks, sk, d, sd, via, true); tr.flush(); _exit(0); }
+    int status = 0;
+    waitpid(pid, &status, 0);
+    ++ev_id;
+    if (!(WIFEXITED(status) && WEXITSTATUS(status) == 0)) {
+      vh::Json j("SEP");
+      j.num("id", ev_id); emit_sep_head(j, ks, sk, d, sd, via); j.boolean("err", false).boolean("crash", true);
+      tr.emit(j);
+    }
+    return;
+  }
   Array<3, float> in = to_array<3>(d, sd);
   Array<3, float> out(in.get_index_range());
   out.fill(777.F);
@@ -196,17 +222,19 @@ static void one_sep(vh::Trace& tr, const K1* ks, int sk, const A3& d, int sd, in
       VoxelsOnCartesianGrid<float> image(in, origin, spacing), image_out(out, origin, spacing);
       shared_ptr<SeparableConvolutionImageFilter<float>> f;
       if (via == 4) f.reset(new SeparableConvolutionImageFilter<float>(co));
-      else { f.reset(new SeparableConvolutionImageFilter<float>()); f->set_filter_coefficients(co); }
+      else if (via == 5) {
+        SeparableConvolutionImageFilter<float> first(co);
+        std::istringstream text(first.parameter_info());
+        f.reset(new SeparableConvolutionImageFilter<float>());
+        if (!f->parse(text)) throw std::runtime_error("parse");
+      } else { f.reset(new SeparableConvolutionImageFilter<float>()); f->set_filter_coefficients(co); }
       if (f->set_up(image) != Succeeded::yes) throw std::runtime_error("set_up");
       if (via == 3) { if (f->apply(image_out, image) != Succeeded::yes) throw std::runtime_error("apply"); out = image_out; res = &out; }
       else { if (f->apply(image) != Succeeded::yes) throw std::runtime_error("apply"); in = image; }
     }
   });
   vh::Json j("SEP");
-  std::vector<std::vector<long long>> kv = { ks[0].v, ks[1].v, ks[2].v };
-  std::vector<int> klo = { ks[0].lo, ks[1].lo, ks[2].lo };
-  j.num("id", ++ev_id).num("via", via).arr("klo", klo).arr2("kv", kv).raw("bc", std::string("[\"") + BCN[ks[0].bc] + "\",\"" + BCN[ks[1].bc] + "\",\"" + BCN[ks[2].bc] + "\"]")
-      .num("sk", sk).arr("dlo", v3(d.lo)).arr("dn", v3(d.n)).arr("d", d.v).num("sd", sd).boolean("err", err);
+  j.num("id", ++ev_id); emit_sep_head(j, ks, sk, d, sd, via); j.boolean("err", err).boolean("crash", false);
   int so = sd;
   for (int a = 0; a < 3; ++a) if (!ks[a].v.empty()) so += sk;
   if (!err) { long long r = 0; j.arr("o", from_array<3>(*res, d.lo, d.n, so, &r)).num("res", r); }
@@ -301,16 +329,13 @@ static void mode_conv(vh::Trace& tr, long nrandom, int tier, vh::Rng& rng) {
   const long nsep = nrandom / 2 + 40;
   for (long it = 0; it < nsep; ++it) {
     K1 ks[3];
-    int via = (int)(it % 5);
+    int via = (int)(it % 6);
     for (int a = 0; a < 3; ++a) {
       const int len = rng.range(0, 3);
       ks[a].lo = len == 0 ? 0 : rng.range(-2, 1);
       ks[a].v = rand_vals(rng, len, 5);
       if (len == 1 && rng.range(0, 2) == 0) ks[a].v[0] = 1;
       ks[a].bc = via <= 1 ? rng.range(0, 1) : 0;
-      // the coefficient constructor of SeparableConvolutionImageFilter is only used with kernels reaching at least as far
-      // to the left as to the right (see notes/C19.md: it writes outside a std::vector otherwise)
-      if (via == 4 && len > 0 && ks[a].lo + len - 1 > -ks[a].lo) ks[a].lo = -(len - 1);
     }
     int dlo[3], dn[3];
     for (int a = 0; a < 3; ++a) { dlo[a] = rng.range(-2, 2); dn[a] = rng.range(1, 4); }
